@@ -128,6 +128,42 @@ pub fn zygote_main(cap_secs: u32) {
     }
 }
 
+/// Path of the clock shim (built next to the binary by the driver), if present.
+pub fn clock_shim() -> Option<String> {
+    let exe = std::env::current_exe().ok()?;
+    let p = exe.parent()?.join("libfakeclock.so");
+    if p.exists() {
+        Some(p.to_string_lossy().to_string())
+    } else {
+        None
+    }
+}
+
+extern "C" {
+    fn dlsym(handle: *mut u8, name: *const u8) -> *mut u8;
+    fn clock_gettime(id: i32, ts: *mut [i64; 2]) -> i32;
+}
+
+/// Advance the simulated clocks of this process by `ns` (no-op without the shim). Returns whether
+/// the shim was there.
+pub fn clock_advance(ns: i64) -> bool {
+    let f = unsafe { dlsym(std::ptr::null_mut(), b"a5sim_clock_advance\0".as_ptr()) };
+    if f.is_null() {
+        return false;
+    }
+    let adv: extern "C" fn(i64) = unsafe { std::mem::transmute(f) };
+    adv(ns);
+    true
+}
+
+/// Real elapsed time source for the simulator's own watchdog: CLOCK_MONOTONIC_RAW, which the
+/// shim never touches.
+pub fn raw_now_ns() -> i64 {
+    let mut ts = [0i64; 2];
+    unsafe { clock_gettime(4, &mut ts) };
+    ts[0] * 1_000_000_000 + ts[1]
+}
+
 thread_local! {
     /// extra environment for children spawned by this thread (the minimiser shortens the
     /// stall timeout of its candidate runs when it chases an operation that never returns)
@@ -137,7 +173,10 @@ thread_local! {
 fn spawn_limited(args: &[&str], vmem_kb: u64) -> std::io::Result<Child> {
     let exe = self_exe();
     let script = format!("ulimit -v {}; exec \"$0\" \"$@\"", vmem_kb);
-    let extra: Vec<(String, String)> = CHILD_ENV.with(|e| e.borrow().clone());
+    let mut extra: Vec<(String, String)> = CHILD_ENV.with(|e| e.borrow().clone());
+    if let Some(shim) = clock_shim() {
+        extra.push(("LD_PRELOAD".into(), shim));
+    }
     Command::new("sh")
         .envs(extra)
         .arg("-c")
